@@ -248,7 +248,7 @@ PBadVar == /\ CanLeaf
                  /\ \E nm \in VarSet : \E d \in {-1, 1} : Len(VarTab[nm].sh) + d >= 0
                        /\ \E ix \in [1..(Len(VarTab[nm].sh) + d) -> (Toks \cap {"i", "j"})] : Push(Ent(VarNd(nm, ix), 1, 1, 0))
               \/ /\ "index-symbol" \in Muts
-                 /\ \E nm \in VarSet : Len(VarTab[nm].sh) = 1 /\ \E t \in {"I", "$"} : Push(Ent(VarNd(nm, <<t>>), 1, 1, 0))
+                 /\ \E nm \in VarSet : Len(VarTab[nm].sh) = 1 /\ Push(Ent(VarNd(nm, <<"$">>), 1, 1, 0))
            /\ UNCHANGED fin
 PWrap == /\ CanOp /\ L >= 1
          /\ \E w \in Wraps : Rep1(Ent(Nd(w, "", <<>>, <<Top.e>>, <<>>), 1, Top.nl, Top.no + 1))
